@@ -222,6 +222,7 @@ func TestRaceC18(t *testing.T) {
 
 func TestRaceC17(t *testing.T) {
 	defer report(t)
+	fanOutRounds(t, 25)
 	for round := 0; round < 25; round++ {
 		atomic.AddInt64(&iterations, 1)
 		logger := watermill.NopLogger{}
@@ -259,6 +260,56 @@ func TestRaceC17(t *testing.T) {
 		_ = f.Close()
 		waitOrGiveUp(t, &wg, "forwarder")
 		_ = g.Close()
+	}
+}
+
+// FanOut over two topics with traffic on both at once (part of C17's program).
+func fanOutRounds(t *testing.T, n int) {
+	for round := 0; round < n; round++ {
+		atomic.AddInt64(&iterations, 1)
+		logger := watermill.NopLogger{}
+		src := gochannel.NewGoChannel(gochannel.Config{OutputChannelBuffer: 8}, logger)
+		fo, err := gochannel.NewFanOut(src, logger)
+		if err != nil {
+			t.Fatal(err)
+		}
+		var got int32
+		for _, topic := range []string{"ta", "tb"} {
+			fo.AddSubscription(topic)
+			ch, err := fo.Subscribe(context.Background(), topic)
+			if err != nil {
+				t.Fatal(err)
+			}
+			topic := topic
+			go func() {
+				for m := range ch {
+					if string(m.Payload) != topic {
+						t.Errorf("round %d: subscriber of %s received a message of %s", round, topic, m.Payload)
+					}
+					atomic.AddInt32(&got, 1)
+					m.Ack()
+				}
+			}()
+		}
+		var wg sync.WaitGroup
+		wg.Add(1)
+		go func() { defer wg.Done(); _ = fo.Run(context.Background()) }()
+		select {
+		case <-fo.Running():
+		case <-time.After(10 * time.Second):
+			t.Log("racepass: fan-out did not start")
+			continue
+		}
+		parallel(t, 4, "publishers into the fan-out", func(i int) {
+			topic := []string{"ta", "tb"}[i%2]
+			_ = src.Publish(topic, message.NewMessage(fmt.Sprint(i), []byte(topic)))
+		})
+		for i := 0; i < 200 && atomic.LoadInt32(&got) < 4; i++ {
+			time.Sleep(time.Millisecond)
+		}
+		_ = fo.Close()
+		waitOrGiveUp(t, &wg, "fan-out")
+		_ = src.Close()
 	}
 }
 
